@@ -1,9 +1,11 @@
 """C03 — neighbor list lists exactly the pairs closer than the cutoff.
 
-Tie: correspondence (hand-written Lean model `Atomman/C03.lean`, exact over Rat) against the real
-`NeighborList` / `System.neighborlist` / `nlist` on identical rational inputs; rows, coordination numbers,
-final storage width, dumped text and re-loaded rows are compared.
-Search: the clauses of the property on the real code with an exact integer-arithmetic oracle.
+Tie: translator (the two capacity-growth blocks of nlist.pyx -> `Generated/NlistStorage.lean`) + correspondence
+(hand-written Lean model `Atomman/C03.lean`, exact over Rat) against the real `NeighborList` /
+`System.neighborlist` / `nlist` on identical rational inputs; rows, coordination numbers, final storage width,
+dumped text, re-loaded rows and whole operation sequences on one object are compared.
+Search: the clauses of the property on the real code with an exact integer-arithmetic oracle (27-candidate distance
+of C02; true nearest image by lattice enumeration inside a proven radius as cross-check).
 """
 from __future__ import annotations
 
@@ -29,12 +31,25 @@ THEOREMS = [
 PARTIAL = {}
 RULE = ('systems: orthogonal / tilted / general (rotated, left-handed) cells with non-zero origin, all 8 pbc '
         'settings, 1-60 atoms placed uniformly / clustered / on faces / on float bin edges / on a dyadic grid '
-        '(exact double arithmetic: distance == cutoff ties decided exactly), cutoff 0.1-1.5 cell widths, '
-        'initialsize, deltasize in 1..25; "hunt" systems: 2-4 atoms, cutoff 0.3-0.9 of the cell lengths, one atom '
-        'within 1% of a cutoff below a cell face and separations of mixed sign across two axes (pairs that are '
-        'close only through a periodic image with the ghost in a bin without real atoms); "outside" systems '
-        '(correspondence only): atoms up to half a cutoff outside the cell, where the result depends on the '
-        'binning. distinct = distinct canonical input line; non-trivial = at least one pair below the cutoff.')
+        '(exact double arithmetic: distance == cutoff ties decided exactly; every 5th grid case stores the positions '
+        'as float32, every 5th as int64), cutoff 0.1-1.5 cell widths, initialsize, deltasize in 1..25; "hunt" systems: '
+        '2-4 atoms, cutoff 0.3-0.9 of the cell lengths, one atom within 1% of a cutoff below a cell face and separations '
+        'of mixed sign across two axes (pairs that are close only through a periodic image with the ghost in a bin '
+        'without real atoms); "dense" systems: 55-130 atoms in one to three clusters narrower than a bin, or a small '
+        'periodic cell with cutoff 0.9-2.4 widths, or 55-100 grid atoms (coincident ones included): more than 40 real '
+        '+ ghost atoms in ONE bin (bin table grows 1-6 times) and coordination numbers far above initialsize (rows grow '
+        'many times, deltasize down to 1); "shear" systems: LAMMPS-form cells with tilt factors up to 2.5 cell edges, '
+        'mildly tilted cells re-expressed in a non-reduced basis (integer combinations with coefficients up to 2), '
+        'rotated / left-handed, flat and needle-like, cutoff 0.3-1.2 of the shortest lattice vector among the 26 '
+        'image shifts, float and dyadic-grid; "outside" systems (correspondence only): atoms up to half a cutoff outside '
+        'the cell, where the result depends on the binning; "sequence": ONE System object, 3-7 times (query -> one small '
+        'change), the change drawn from 22 kinds (one atom moved in place / through Atoms.prop / through the scaled '
+        'setter, all atoms replaced through the setter / the view / scaled, two atoms swapped, pbc setter or in-place '
+        'flip, box_set scale=True / scale=False / box.set, rigid translation, atoms_extend, atoms_ix subset, deepcopy, '
+        'wrap, System.neighborlist(model=dump of the previous answer), r0(), other cutoff, other sizes, nothing), the '
+        'query through NeighborList(system=), System.neighborlist or nlist(); every answer is compared for the state '
+        'read back from the object at that moment, and earlier answers must not change. '
+        'distinct = distinct canonical input line; non-trivial = at least one pair below the cutoff.')
 ASSUMPTIONS = [
     'IEEE double evaluation of dmag2 < cutoff*cutoff agrees with the exact comparison except for pairs whose exact '
     'squared distance is within 1e-9 (relative) of cutoff^2; such pairs are exempt outside the dyadic-grid regime '
@@ -46,9 +61,17 @@ ASSUMPTIONS = [
     'shows the rows do not depend on it',
     'np.empty garbage is arbitrary (model: an arbitrary function junk r k; theorem storage_refines is for all junk)',
     'text load: str.split() is modelled for blanks only, int() for plain digit strings (what dump writes)',
+    'the periodic distance of the property is the one of C02: the shortest of the 27 candidates with shifts -1, 0, +1 '
+    '(theorems and oracle use it). In strongly sheared cells a second-neighbour image can be nearer; such pairs are '
+    'enumerated (all shifts inside the Cauchy-Schwarz radius) and counted in the evidence, no claim is made for them',
+    'operations between two neighbor-list calls enter the object-level model as the assignment of the state read back '
+    'from the real object (box, pbc, positions); how box_set(scale=True), wrap, scaled setters compute that state is '
+    'C01/C05/C06',
 ]
 TRUSTED = ['numpy arange/digitize/unique/vstack/hstack inside nlist.pyx (correspondence run)',
-           'exact oracle: python int arithmetic on float.as_integer_ratio inputs']
+           'exact oracle: python int arithmetic on float.as_integer_ratio inputs',
+           'regular-expression template of the two growth blocks of nlist.pyx in the translator (any other shape of '
+           'these blocks is reported as a broken tie, never silently accepted)']
 
 CORPUS = cm.VERIF / 'corpus' / 'C03'
 TOL = '1/1000000000'
@@ -219,6 +242,8 @@ def gen_hunt(rng, it):
     """2-4 atoms; atom u just below the upper face of axis a, atom v near the lower face, separated (through the
     periodic image along a) by less than the cutoff with components of mixed sign on a second axis."""
     np = _np()
+    if it % 3 == 2:
+        return _gen_corner(rng, it)
     c = rng.uniform(0.5, 3.0)
     a = rng.choice([2, 1, 0])
     others = [k for k in range(3) if k != a]
@@ -257,6 +282,59 @@ def gen_hunt(rng, it):
     if rng.random() < 0.15:
         pbc[rng.choice([b, t])] = False
     pos = np.clip(np.array(rel), 0.0, 1.0) @ v + np.array(origin)
+    return _case(v, origin, pos, pbc, c, 'float', rng.randint(1, 4), rng.randint(1, 3))
+
+
+def _gen_corner(rng, it):
+    """2-4 atoms; a pair that is close only through an image shifted along TWO or THREE cell vectors at once (across
+    an edge or a corner of the cell), with shifts of equal or mixed sign and sizeable components on every crossed
+    axis: in both representations (real u + ghost of v, real v + ghost of u) the ghost lies outside the cell on
+    two or three sides, beyond the lower faces on some axes and the upper faces on others."""
+    np = _np()
+    c = rng.uniform(0.5, 3.0)
+    ncross = rng.choice([2, 2, 3])
+    axes = rng.sample(range(3), ncross)
+    D = [rng.uniform(-0.3, 0.3) * c for _ in range(3)]
+    for k in axes:
+        D[k] = rng.uniform(0.3, 0.8) * c * rng.choice([1, -1])
+    nrm = math.sqrt(sum(x * x for x in D))
+    if nrm >= 0.98 * c:
+        f = rng.uniform(0.75, 0.97) * c / nrm
+        D = [x * f for x in D]
+    L = [rng.uniform(1.1, 3.2) * c for _ in range(3)]
+    u = [0.0] * 3
+    w = [0.0] * 3
+    for k in range(3):
+        if k in axes:
+            e = rng.uniform(0.0, abs(D[k]))          # how far u is from the face that the separation crosses
+            if D[k] > 0:
+                u[k] = L[k] - e
+                w[k] = u[k] + D[k] - L[k]
+            else:
+                u[k] = e
+                w[k] = u[k] + D[k] + L[k]
+        else:
+            lo = max(0.0, -D[k])
+            hi = min(L[k], L[k] - D[k])
+            u[k] = rng.uniform(lo, hi)
+            w[k] = u[k] + D[k]
+    rel = [[min(max(u[k] / L[k], 0.0), 1.0) for k in range(3)], [min(max(w[k] / L[k], 0.0), 1.0) for k in range(3)]]
+    if rng.random() < 0.5:
+        rel.reverse()
+    for _ in range(rng.choice([0, 0, 0, 1, 2])):
+        rel.insert(rng.randint(0, len(rel)), [rng.random() for _ in range(3)])
+    v = np.diag(L)
+    if rng.random() < 0.4:
+        v[1, 0] = rng.uniform(-0.3, 0.3) * L[0]
+        v[2, 0] = rng.uniform(-0.3, 0.3) * L[0]
+        v[2, 1] = rng.uniform(-0.3, 0.3) * L[1]
+    origin = [rng.uniform(-3, 3) for _ in range(3)]
+    pbc = [True, True, True]
+    if rng.random() < 0.1:
+        free = [k for k in range(3) if k not in axes]
+        if free:
+            pbc[free[0]] = False
+    pos = np.array(rel) @ v + np.array(origin)
     return _case(v, origin, pos, pbc, c, 'float', rng.randint(1, 4), rng.randint(1, 3))
 
 
@@ -1049,13 +1127,13 @@ def correspond(ctx):
         for name, case in load_corpus():
             _correspond_case(ctx, case, 'corpus:' + name, tmpdir, True)
         plan = [(gen_general, ctx.n(150, 4000)), (gen_grid, ctx.n(120, 3000)), (gen_edges, ctx.n(50, 1000)),
-                (gen_hunt, ctx.n(150, 4000)), (gen_outside, ctx.n(80, 2000)), (gen_shear, ctx.n(150, 4000)),
-                (gen_dense, ctx.n(15, 300))]
+                (gen_hunt, ctx.n(150, 4000)), (gen_outside, ctx.n(80, 2000)), (gen_shear, ctx.n(150, 3000)),
+                (gen_dense, ctx.n(15, 200))]
         for gen, count in plan:
             for it in range(count):
                 case = gen(rng, it)
                 _correspond_case(ctx, case, gen.__name__, tmpdir, it % 2 == 0)
-        for it in range(ctx.n(40, 1200)):
+        for it in range(ctx.n(40, 800)):
             run_sequence(ctx, rng, it, 'corr', tmpdir)
     # text format: hand-made rows (long lists, empty lists, many digits) through dump/load of the model only
     _model_text_selfcheck(ctx, rng)
@@ -1460,7 +1538,7 @@ def _search_case(ctx, case, kind, name, full, tmpdir=None):
             _dmag_crosscheck(ctx, case, system, rows, cls)
         if kind in ('shear', 'general', 'grid') and 2 <= n <= 40:
             ctx.extra['_tn'] = ctx.extra.get('_tn', 0) + 1
-            if ctx.thorough or ctx.extra['_tn'] % 4 == 0:
+            if ctx.extra['_tn'] % 4 == 0:
                 _true_nearest_report(ctx, case, rows)
 
 
@@ -1489,8 +1567,8 @@ def search(ctx, broken):
     for name, case in load_corpus():
         _search_case(ctx, case, 'corpus', name, True)
     mult = 3 if broken else 1
-    plan = [('dense', gen_dense, ctx.n(40, 1500) * mult), ('shear', gen_shear, ctx.n(600, 20000) * mult),
-            ('hunt', gen_hunt, ctx.n(5000, 120000) * mult), ('general', gen_general, ctx.n(250, 8000) * mult),
+    plan = [('dense', gen_dense, ctx.n(40, 1500) * mult), ('shear', gen_shear, ctx.n(600, 12000) * mult),
+            ('hunt', gen_hunt, ctx.n(5000, 100000) * mult), ('general', gen_general, ctx.n(250, 8000) * mult),
             ('grid', gen_grid, ctx.n(250, 8000) * mult), ('edges', gen_edges, ctx.n(100, 3000) * mult)]
     with tempfile.TemporaryDirectory(prefix='c03_') as tmpdir:
         for kind, gen, count in plan:
@@ -1500,7 +1578,7 @@ def search(ctx, broken):
                              tmpdir=tmpdir if it % 3 == 0 else None)
                 if len(ctx.violations) >= 6:
                     return
-        for it in range(ctx.n(150, 5000) * mult):
+        for it in range(ctx.n(150, 3000) * mult):
             run_sequence(ctx, rng, it, 'oracle', tmpdir)
             if len(ctx.violations) >= 6:
                 return
@@ -1564,21 +1642,30 @@ def replay(ctx, payload):
 
 
 MANIFEST = {
-    'text': 'Lean model (exact over Q) of nlist.pyx: superbox, cutoff-sized bins, ghost images, half-stencil sweep over '
-            'every occupied bin, dmag2 test on real indices, sorted symmetric insertion on growing lists and on '
-            'fixed-capacity rows with initialsize/deltasize growth, NeighborList coord/[i], text dump/load. Proved for '
-            'all inputs: rows strictly ascending / symmetric / irreflexive / in range, coord = length (alg_inv, '
-            'storage_coord); every listed pair is below the cutoff (alg_sound); output = ascending filter of the '
-            'compared pairs, independent of their order (alg_eq_compared, alg_order_irrelevant); capacity rows refine '
-            'lists for every initialsize, deltasize >= 1 and every np.empty garbage (storage_refines); for atoms '
-            'inside the cell and cutoff > 0 the output equals the specification sorted [j | j != i, dmag2 i j < '
-            'cutoff^2] (alg_complete, nlistA_complete, via adjacent_bins, ghost_exists, compared_complete); '
-            'parse (render rows) = rows (nlist_text_roundtrip). Tie: differential correspondence with the real '
-            'NeighborList on identical rational inputs (rows, coord, storage width, dumped text, re-loaded rows).',
+    'text': 'Lean model (exact over Q) of nlist.pyx: superbox, cutoff-sized bins, ghost images, the bin table xyzbins as '
+            'fixed-capacity rows with the growth block translated from the source on every run (initial maxatomsperbin, '
+            'trigger, widths, copy loop) and as lists, half-stencil sweep over every occupied bin, dmag2 test on real '
+            'indices, sorted symmetric insertion on growing lists and on fixed-capacity rows with initialsize/deltasize '
+            'growth, NeighborList coord/[i], text dump/load, and an object-level model (operations on a System between '
+            'calls, answers). Proved for all inputs: rows strictly ascending / symmetric / irreflexive / in range, coord '
+            '= length (alg_inv, storage_coord); every listed pair is below the cutoff (alg_sound); output = ascending '
+            'filter of the compared pairs, independent of their order (alg_eq_compared, alg_order_irrelevant); capacity '
+            'rows refine lists for every initialsize, deltasize >= 1 and every np.empty garbage (storage_refines; the '
+            'growth constants of the source are the modelled ones: nbr_growth_as_modelled); the capacity bin table '
+            'refines the list bins for every sound growth block and the block in the source is sound (bins_refine, '
+            'src_bins_sound, cands_table_eq); for atoms inside the cell and cutoff > 0 the output with both capacity '
+            'tables equals the specification sorted [j | j != i, dmag2 i j < cutoff^2] (alg_complete, nlistA_complete, '
+            'nlistFull_complete, via adjacent_bins, ghost_exists, compared_complete); a call is answered from the state '
+            'at the time of the call whatever happened before (answers_fresh, answers_history_independent, '
+            'answers_complete); parse (render rows) = rows (nlist_text_roundtrip). Tie: translator for the growth blocks '
+            '+ differential correspondence with the real NeighborList / System.neighborlist / nlist on identical '
+            'rational inputs (rows, coord, storage width, dumped text, re-loaded rows, whole operation sequences on one '
+            'object).',
     'note': 'Trusted: Lean kernel + propext/Classical.choice/Quot.sound; the correspondence harness; numpy '
             'arange/digitize/unique inside nlist.pyx; IEEE rounding of the distance test within 1e-9 of the cutoff is '
-            'exempt outside the dyadic-grid regime (exact there). The sweep order of np.unique and the growth of the '
-            'bin table (maxatomsperbin) are not modelled (order proved irrelevant; bin growth exercised by the '
-            'correspondence only).',
-    'technique': 'Lean 4 theorems over a hand-written executable model + differential correspondence + exact oracle',
+            'exempt outside the dyadic-grid regime (exact there). The sweep order of np.unique is not modelled (proved '
+            'irrelevant). Periodic distance = the 27-candidate distance of C02; pairs nearer only through a second '
+            'image in strongly sheared cells are counted, not claimed.',
+    'technique': 'Lean 4 theorems over a hand-written executable model + translator (growth blocks) + differential '
+                 'correspondence + exact oracle',
 }
